@@ -12,7 +12,7 @@
    calls: by [C06_rejected_leave_no_trace_build] the bytes are those of from_iter over
    [accepted_ops None ops]. *)
 Require Import FstV.Base FstV.Builder FstV.Format FstV.CodecSpec FstV.Fst.
-Require Import FstV.proofs.BuilderInv FstV.proofs.BuilderBasics FstV.proofs.BuilderNoPanic.
+Require Import FstV.proofs.BuilderInv FstV.proofs.BuilderBasics FstV.proofs.BuilderNoPanic FstV.proofs.BuilderBatches.
 
 (* one call, any builder state (reachable or not).  Clause 2 needs no "and it is not the duplicate
    case": key_ltb k l = true already excludes k = l.  Clause 5 is the acceptance criterion of the
@@ -177,6 +177,150 @@ Example C06_closed_nonvacuous :
   ops_in_range ex_ops /\ size_ok_ops (accepted_ops None ex_ops) /\ size_ok_ops (fst (accepted_prefix None ex_ops)).
 Proof. split; [repeat constructor|split; reflexivity]. Qed.
 
+(* ---------- several extend batches on ONE builder ----------
+   extend_iter / extend_stream may be called several times on the same builder; a batch that stops
+   at a rejected item returns that error and leaves a builder that is used further.  Model:
+   [Builder.run_batches] (fold of [run_extend], one result per batch) and [Builder.batches_written];
+   specification: [Fst.spec_batches last batches] = (accepted items overall, one result per batch,
+   last accepted key): per batch [accepted_prefix] judged from the last ACCEPTED key so far.
+   Proofs in proofs/BuilderBatches.v.  Premises as above: bytes / values in range, and the size
+   budget over the accepted items only (neither a rejected item nor the skipped rest of a failed
+   batch costs anything). *)
+Definition batches_in_range (batches : list (list op)) : Prop := Forall ops_in_range batches.
+
+(* (a) every batch returns the specified result: never Panic, Ok or an ordering error, namely the
+   first non-Ok result its items would get one by one ([first_non_ok] of [spec_calls], equally of
+   the model's [run_calls] from the state the earlier batches left), judged from the last key
+   accepted in the batches before it *)
+Theorem C06_batches_results : forall ty rows cols batches,
+  batches_in_range batches -> size_ok_ops (fst (fst (spec_batches None batches))) ->
+  let b0 := new_builder ty rows cols in
+  snd (run_batches b0 batches) = snd (fst (spec_batches None batches)) /\
+  Forall (fun r => r <> Panic) (snd (run_batches b0 batches)) /\
+  Forall (fun r => r = Ok tt \/ exists e, r = Err e /\ is_order_err e) (snd (run_batches b0 batches)) /\
+  (forall pre ops post, batches = pre ++ ops :: post ->
+     nth_error (snd (run_batches b0 batches)) (length pre) =
+       Some (first_non_ok (spec_calls (snd (spec_batches None pre)) ops)) /\
+     first_non_ok (spec_calls (snd (spec_batches None pre)) ops) =
+       first_non_ok (snd (run_calls (fst (run_batches b0 pre)) ops))).
+Proof. exact batches_results. Qed.
+
+(* the same for every builder reachable from a new one by an earlier history of batches (single
+   calls are batches of one item: [C06_calls_are_batches]): the further batches are judged from
+   the last key the history got accepted, none panics, and the state afterwards is the state
+   after the accepted items alone *)
+Theorem C06_batches_results_reachable : forall ty rows cols history batches,
+  batches_in_range (history ++ batches) ->
+  size_ok_ops (fst (fst (spec_batches None (history ++ batches)))) ->
+  let b := fst (run_batches (new_builder ty rows cols) history) in
+  b_last b = snd (spec_batches None history) /\
+  snd (run_batches b batches) = snd (fst (spec_batches (b_last b) batches)) /\
+  Forall (fun r => r <> Panic) (snd (run_batches b batches)) /\
+  fst (run_batches b batches) = fst (run_calls b (fst (fst (spec_batches (b_last b) batches)))).
+Proof. exact batches_results_reachable. Qed.
+
+Theorem C06_calls_are_batches : forall ops b, run_batches b (map (fun o => [o]) ops) = run_calls b ops.
+Proof. exact calls_are_batches. Qed.
+
+Theorem C06_run_batches_app : forall bs1 b bs2,
+  run_batches b (bs1 ++ bs2) =
+  (fst (run_batches (fst (run_batches b bs1)) bs2),
+   snd (run_batches b bs1) ++ snd (run_batches (fst (run_batches b bs1)) bs2)).
+Proof. exact run_batches_app. Qed.
+
+(* (b) rejected items and the skipped rest of a failed batch leave no trace: the state after the
+   batches is the state after the accepted items alone (as single calls, all Ok, or as one
+   extend), so finish writes the bytes of from_iter over the accepted items, and those bytes are
+   a well-formed FST whose content is exactly the accepted keys and values *)
+Theorem C06_batches_leave_no_trace : forall summer ty rows cols batches,
+  batches_in_range batches -> size_ok_ops (fst (fst (spec_batches None batches))) ->
+  ty < U64 -> (forall l, summer l < 4294967296) ->
+  let b0 := new_builder ty rows cols in
+  let accepted := fst (fst (spec_batches None batches)) in
+  fst (run_batches b0 batches) = fst (run_calls b0 accepted) /\
+  run_extend b0 accepted = (fst (run_batches b0 batches), Ok tt) /\
+  Forall (fun r => r = Ok tt) (snd (run_calls b0 accepted)) /\
+  b_last (fst (run_batches b0 batches)) = snd (spec_batches None batches) /\
+  exists bs p,
+    b_finish summer (fst (run_batches b0 batches)) = Ok bs /\
+    build_ops summer ty rows cols accepted = Ok bs /\
+    spec_parse bs = Some p /\
+    p_version p = 3 /\ p_ty p = ty /\ p_len p = len (spec_content None accepted []) /\
+    p_content p = spec_content None accepted [] /\
+    p_checksum p = Some (summer (firstn (length bs - 4) bs)) /\
+    wf_fst_b bs = true.
+Proof. exact batches_leave_no_trace. Qed.
+
+(* the accepted items, replayed alone, are all accepted *)
+Theorem C06_batches_accepted_accepted : forall batches last,
+  accepted_ops last (fst (fst (spec_batches last batches))) = fst (fst (spec_batches last batches)).
+Proof. exact sb_accepted_accepted. Qed.
+
+(* (c) cutting a sequence into batches changes nothing but where processing stops: while the
+   batches so far were fully accepted, a further batch behaves like the tail of one long extend
+   (state and result); if every batch is fully accepted, the batches end in the state of one
+   extend over their concatenation.  Unconditional, for every starting state. *)
+Theorem C06_batches_eq_calls_gen : forall pre b ops,
+  Forall (fun r => r = Ok tt) (snd (run_batches b pre)) ->
+  run_extend b (concat pre ++ ops) = run_extend (fst (run_batches b pre)) ops.
+Proof. exact batches_eq_extend_gen. Qed.
+
+Theorem C06_batches_eq_calls : forall b batches,
+  Forall (fun r => r = Ok tt) (snd (run_batches b batches)) ->
+  run_extend b (concat batches) = (fst (run_batches b batches), Ok tt).
+Proof. exact batches_eq_extend. Qed.
+
+Theorem C06_spec_batches_all_ok : forall batches last,
+  Forall (fun r => r = Ok tt) (snd (fst (spec_batches last batches))) ->
+  fst (fst (spec_batches last batches)) = concat batches.
+Proof. exact sb_all_ok. Qed.
+
+(* bytes_written after every batch is b_count of the state after that many batches *)
+Theorem C06_batches_written : forall batches b,
+  batches_written b batches =
+  map (fun n => b_count (fst (run_batches b (firstn n batches)))) (seq 1 (length batches)).
+Proof. exact batches_written_spec. Qed.
+
+(* (d) non-vacuity: three batches over the keys a, b, d, c, e.  The second batch fails in the
+   middle (c after d: OutOfOrder with previous = d, e is not looked at); inserting the failed key
+   again on the builder it left is rejected with the same previous, inserting d again is
+   DuplicateKey, both leave that builder as it is; the third batch adds e.  The rejected calls put
+   in between as batches of one item change nothing.  The finished file holds a, b, d, e. *)
+Definition ex_batches : list (list op) :=
+  [[OpInsert [97] 1; OpInsert [98] 2]; [OpInsert [100] 3; OpInsert [99] 4; OpInsert [101] 5]; [OpInsert [101] 6]].
+Definition ex_batches_retry : list (list op) :=
+  [[OpInsert [97] 1; OpInsert [98] 2]; [OpInsert [100] 3; OpInsert [99] 4; OpInsert [101] 5];
+   [OpInsert [99] 7]; [OpInsert [100] 8]; [OpInsert [101] 6]].
+Example C06_batches_nonvacuous :
+  let b0 := new_builder 0 4 2 in
+  let b2 := fst (run_batches b0 (firstn 2 ex_batches)) in
+  snd (run_batches b0 ex_batches) = [Ok tt; Err (EOutOfOrder [100] [99]); Ok tt] /\
+  spec_batches None ex_batches =
+    ([OpInsert [97] 1; OpInsert [98] 2; OpInsert [100] 3; OpInsert [101] 6],
+     [Ok tt; Err (EOutOfOrder [100] [99]); Ok tt], Some [101]) /\
+  apply_op b2 (OpInsert [99] 7) = (b2, Err (EOutOfOrder [100] [99])) /\
+  apply_op b2 (OpInsert [100] 8) = (b2, Err (EDuplicateKey [100])) /\
+  snd (run_batches b0 ex_batches_retry) =
+    [Ok tt; Err (EOutOfOrder [100] [99]); Err (EOutOfOrder [100] [99]); Err (EDuplicateKey [100]); Ok tt] /\
+  fst (run_batches b0 ex_batches_retry) = fst (run_batches b0 ex_batches) /\
+  fst (fst (spec_batches None ex_batches_retry)) = fst (fst (spec_batches None ex_batches)) /\
+  batches_written b0 ex_batches = [16; 16; 16] /\
+  spec_content None (fst (fst (spec_batches None ex_batches))) [] = [([97], 1); ([98], 2); ([100], 3); ([101], 6)] /\
+  (* finish: the bytes of from_iter over the four accepted items; the format specification reads
+     exactly a, b, d, e out of them *)
+  b_finish (fun _ => 0) (fst (run_batches b0 ex_batches)) =
+    build_ops (fun _ => 0) 0 4 2 [OpInsert [97] 1; OpInsert [98] 2; OpInsert [100] 3; OpInsert [101] 6] /\
+  match b_finish (fun _ => 0) (fst (run_batches b0 ex_batches)) with
+  | Ok bytes => option_map (fun p => (p_content p, p_len p, wf_fst_b bytes)) (spec_parse bytes)
+  | _ => None
+  end = Some ([([97], 1); ([98], 2); ([100], 3); ([101], 6)], 4, true).
+Proof. vm_compute. repeat split. Qed.
+
+(* the premises of the batch theorems hold of the example *)
+Example C06_batches_closed_nonvacuous :
+  batches_in_range ex_batches_retry /\ size_ok_ops (fst (fst (spec_batches None ex_batches_retry))).
+Proof. split; [repeat constructor|reflexivity]. Qed.
+
 Check C06_reject_state_identity : forall b o b' e, apply_op b o = (b', Err e) -> b' = b /\ is_order_err e.
 Check C06_calls_state_accepted : forall ops b,
   fst (run_calls b ops) = fst (run_calls b (accepted_ops (b_last b) ops)).
@@ -205,3 +349,30 @@ Print Assumptions C06_extend_closed.
 Print Assumptions C06_closed_nonvacuous.
 Print Assumptions C06_nonvacuous_map.
 Print Assumptions C06_nonvacuous_set.
+Check C06_batches_results : forall ty rows cols batches,
+  Forall (Forall (fun o => Forall (fun b => b < 256) (op_key o) /\ op_val o < U64)) batches ->
+  NODE_MAX * (1 + key_bytes (map op_key (fst (fst (spec_batches None batches))))) + 100 < U64 ->
+  let b0 := new_builder ty rows cols in
+  snd (run_batches b0 batches) = snd (fst (spec_batches None batches)) /\
+  Forall (fun r => r <> Panic) (snd (run_batches b0 batches)) /\
+  Forall (fun r => r = Ok tt \/ exists e, r = Err e /\ is_order_err e) (snd (run_batches b0 batches)) /\
+  (forall pre ops post, batches = pre ++ ops :: post ->
+     nth_error (snd (run_batches b0 batches)) (length pre) =
+       Some (first_non_ok (spec_calls (snd (spec_batches None pre)) ops)) /\
+     first_non_ok (spec_calls (snd (spec_batches None pre)) ops) =
+       first_non_ok (snd (run_calls (fst (run_batches b0 pre)) ops))).
+Check C06_batches_eq_calls : forall b batches,
+  Forall (fun r => r = Ok tt) (snd (run_batches b batches)) ->
+  run_extend b (concat batches) = (fst (run_batches b batches), Ok tt).
+Print Assumptions C06_batches_results.
+Print Assumptions C06_batches_results_reachable.
+Print Assumptions C06_calls_are_batches.
+Print Assumptions C06_run_batches_app.
+Print Assumptions C06_batches_leave_no_trace.
+Print Assumptions C06_batches_accepted_accepted.
+Print Assumptions C06_batches_eq_calls_gen.
+Print Assumptions C06_batches_eq_calls.
+Print Assumptions C06_spec_batches_all_ok.
+Print Assumptions C06_batches_written.
+Print Assumptions C06_batches_nonvacuous.
+Print Assumptions C06_batches_closed_nonvacuous.
